@@ -12,7 +12,8 @@ EXPLANATION = (
     "the value-typing relation is re-derived each run by joining inference::tag (kind->tag) with the constructor sites "
     "reached from eval_any's dispatch (kind->Expr), closed under sum/reference/recursion using the checker's own "
     "predicates. R2 reports that tag variables pass every kind check and nothing after substitution rejects them; R3 "
-    "checks the phase order in compile(). This decides a necessary structural condition of soundness, not the whole "
+    "checks the phase order in compile(); R4-R6 share the binding-discipline, cycle-rejection and status-conversion rules "
+    "of C08, C09 and C04, on which the agreement argument rests. This decides a necessary structural condition of soundness, not the whole "
     "soundness theorem (arity/unification correctness, emitter panics and stack depth are not decided).")
 ASSUMPTIONS = [
     "a node's run-time value is one of the Expr variants constructed by the eval_* function of its syntax kind (or reached by the language's delegation rules: sum, reference, recursion, application)",
@@ -251,7 +252,7 @@ def r1_agree(c, facts, T):
     c.floor(R, 'cast functions interpreted', len(T.accept), 11)
     c.floor(R, 'kind predicates interpreted', len(T.pred), 11)
     c.floor(R, 'cast positions in the evaluator', len([r for r in es if r['pos']]), 19)
-    c.floor(R, 'checked positions in typecheck.rs', len([r for r in ck if r['pos'] and r['pos'][0] != '<param>']), 17)
+    c.floor(R, 'checked positions in typecheck.rs', len([r for r in ck if r['pos'] and r['pos'][0] != '<param>']), 18)
     c.floor(R, 'concrete constraints in inference::constrain', len([r for r in cs if r['tags'] and r['pos'] and r['pos'][0] != '<param>']), 9)
     c.floor(R, 'positions decided', npos, 20)
     c.floor(R, 'tag/value obligations', nobl, 150)
@@ -369,3 +370,14 @@ def run(c, facts):
         T, ck, es = out[0]
         c.run(lambda c: r2_var_escape(c, facts, T, ck, es))
     c.run(lambda c: r3_phase_order(c, facts))
+    import c08
+    import c09
+    import c04
+    R4 = c.rule('C01.R4', 'BINDING-DISCIPLINE: a use evaluates to the value its binder was typed with (shared with C08.R1-R3)')
+    c.shared(R4, c08.r1_innermost, 'C08.R1', facts)
+    c.shared(R4, c08.r2_pairing, 'C08.R2', facts)
+    c.shared(R4, c08.r3_eager, 'C08.R3', facts)
+    R5 = c.rule('C01.R5', 'CYCLE-REJECT: cycles without a cut point are rejected, so evaluation cannot recurse forever (shared with C09.R1/R3)')
+    c.shared(R5, c09.r3_cut_agree, 'C09.R3', facts)
+    c.shared(R5, c09.r1_marker, 'C09.R1', facts)
+    c.run(lambda c: c04.r5_status_conv(c, facts, rule='C01.R6'))
